@@ -134,6 +134,9 @@ func Run(ctx *Ctx, p *Property, level string) int {
 				}
 				all = append(all, r)
 			}
+			if !g.NoVC {
+				all = append(all, clauseCoverage(ctx, fn, rep.Results)...)
+			}
 		}
 	}
 	if p.Extra != nil {
@@ -335,6 +338,57 @@ func Run(ctx *Ctx, p *Property, level string) int {
 		return 1
 	}
 	return 0
+}
+
+// clauseCoverage guards against a contract that is written but never turned
+// into obligations (a missing serves/o-sig attribute, a guard no enumerated
+// path satisfies): every labelled O-clause of the entry's contract must have
+// produced at least one obligation on this run.
+func clauseCoverage(ctx *Ctx, fn string, results []driver.ObResult) []driver.ObResult {
+	con := ctx.L.Contracts.Funcs[fn]
+	if con == nil {
+		return nil
+	}
+	var out []driver.ObResult
+	seen := map[string]bool{}
+	for _, attr := range []string{"o-ensures", "o-rel-ensures", "o-closure-ensures", "o-closure-inv"} {
+		for _, v := range con.Attrs[attr] {
+			t := strings.TrimSpace(v)
+			for strings.HasPrefix(t, "when ") {
+				ws := strings.SplitN(t, " ", 3)
+				if len(ws) < 3 {
+					break
+				}
+				t = strings.TrimSpace(ws[2])
+			}
+			if !strings.HasPrefix(t, "[") || !strings.Contains(t, "]") {
+				continue
+			}
+			label := t[1:strings.Index(t, "]")]
+			if seen[attr+label] {
+				continue
+			}
+			seen[attr+label] = true
+			n := 0
+			for _, r := range results {
+				if i := strings.Index(r.Name, ":"+label); i >= 0 && !strings.Contains(r.Name, "/vacuity:") {
+					rest := r.Name[i+1+len(label):]
+					if rest == "" || !(rest[0] == '-' || rest[0] >= 'a' && rest[0] <= 'z' || rest[0] >= 'A' && rest[0] <= 'Z' || rest[0] >= '0' && rest[0] <= '9') {
+						n++
+					}
+				}
+			}
+			name := "O:" + fn + "/vacuity:clause-exercised:" + label
+			r := driver.ObResult{Name: name, ID: name + "#0", Kind: "vacuity", Func: fn, Status: "unsat", Backend: "obligation count", Layer: "O",
+				Output: fmt.Sprintf("%d obligations from %s [%s]", n, attr, label)}
+			if n == 0 {
+				r.Status = "refuted"
+				r.Output = fmt.Sprintf("the contract clause %s [%s] of %s produced no obligation on any path: the clause is not being checked", attr, label, fn)
+			}
+			out = append(out, r)
+		}
+	}
+	return out
 }
 
 func relFiles(fs []string) []string {
